@@ -8,14 +8,14 @@ Import ListNotations.
    every severity-waiver setting: whenever the complete run gives a report (c, rs), the run with
    abort_on_first gives (c, rs') - the same verdict - where rs' is a sub-list of rs whose
    results may carry fewer nested details, and a non-conforming verdict has a result. *)
-Theorem C12_abort : forall trig o, abort o = false -> forall sg g E c rs,
-  validate trig o sg g E = Ok (c, rs) ->
-  exists rs', validate trig (with_abort o) sg g E = Ok (c, rs') /\ le_list rs' rs /\ (c = false -> rs' <> []).
+Theorem C12_abort : forall trig W o, abort o = false -> forall sg g E c rs,
+  validate trig W o sg g E = Ok (c, rs) ->
+  exists rs', validate trig W (with_abort o) sg g E = Ok (c, rs') /\ le_list rs' rs /\ (c = false -> rs' <> []).
 Proof. exact validate_abort. Qed.
 Print Assumptions C12_abort.
 
 (* the RuntimeError "A Non-Conformant Validation Report must have at least one result" is unreachable *)
-Theorem C12_nonempty : forall trig o sg g E rs, validate trig o sg g E = Ok (false, rs) -> rs <> [].
+Theorem C12_nonempty : forall trig W o sg g E rs, validate trig W o sg g E = Ok (false, rs) -> rs <> [].
 Proof. exact nonconforming_has_result. Qed.
 Print Assumptions C12_nonempty.
 
@@ -25,7 +25,7 @@ Definition S : shape := {| sid := IRI 100; spath := None; deact := false; ssev :
    scomps := [CLeaf (LIn []); CLeaf (LHasValue [IRI 8])] |}.
 Definition ofull := {| abort := false; allow_infos := false; allow_warnings := false; max_depth := 15; focus_filter := [] |}.
 Example C12_nonvacuous :
-  validate_impl ofull [] [] [S] = Ok (false, [VR (IRI 7) (Some (IRI 7)) sh_InConstraintComponent (IRI 100) t_Violation [];
-                                              VR (IRI 7) None sh_HasValueConstraintComponent (IRI 100) t_Violation []])
-  /\ validate_impl (with_abort ofull) [] [] [S] = Ok (false, [VR (IRI 7) (Some (IRI 7)) sh_InConstraintComponent (IRI 100) t_Violation []]).
+  validate_impl0 ofull [] [] [S] = Ok (false, [VR (IRI 7) (Some (IRI 7)) None sh_InConstraintComponent (IRI 100) t_Violation [];
+                                              VR (IRI 7) None None sh_HasValueConstraintComponent (IRI 100) t_Violation []])
+  /\ validate_impl0 (with_abort ofull) [] [] [S] = Ok (false, [VR (IRI 7) (Some (IRI 7)) None sh_InConstraintComponent (IRI 100) t_Violation []]).
 Proof. vm_compute. split; reflexivity. Qed.
